@@ -10,6 +10,8 @@
 (*            representation is the structured residue X                           *)
 (*   gfp      internal/sm9/bn256 base field (gfpMul Sqr Add Sub Neg Double Triple   *)
 (*            FromMont Invert Sqrt lessThanP), assembly or generic                 *)
+(*   natn / natn9  internal/bigmod (Nat.Mul Add Sub) modulo the SM2 and the SM9 group   *)
+(*            order: ordinary residues, limb-structured like the others            *)
 (*   gfp2     its quadratic extension (Mul MulU MulU1 Square SquareU Add Sub Neg    *)
 (*            Double Triple Invert)                                                *)
 (* Operands are STRUCTURED IN THE LIMBS: every 64-bit limb of a residue is drawn    *)
@@ -30,7 +32,7 @@ By == INSTANCE Bytes
 PR == INSTANCE Prng
 Hx == INSTANCE Hex
 Em == INSTANCE Emit
-Modulus == IF Field \in {"p256", "fiatp"} THEN S!P ELSE IF Field \in {"p256ord", "fiatn"} THEN S!N ELSE B!P
+Modulus == IF Field \in {"p256", "fiatp"} THEN S!P ELSE IF Field \in {"p256ord", "fiatn", "natn"} THEN S!N ELSE IF Field = "natn9" THEN B!N ELSE B!P
 MT == INSTANCE Mont WITH M <- Modulus
 VARIABLES a, phase, hist
 vars == <<a, phase, hist>>
@@ -81,6 +83,7 @@ Binary == CASE Field \in {"p256"} -> {"mul", "add"}
             [] Field = "p256ord" -> {"mul", "add"}
             [] Field \in {"fiatp", "fiatn"} -> {"mul", "add", "sub"}
             [] Field = "gfp" -> {"mul", "add", "sub"}
+            [] Field \in {"natn", "natn9"} -> {"mul", "add", "sub"}
             [] OTHER -> {}
 Unary == CASE Field = "p256" -> {"sqr1", "sqr2", "sqr5", "frommont", "neg", "inv", "sqrt"}
            [] Field = "p256ord" -> {"sqr1", "sqr2", "sqr5"}
@@ -94,7 +97,8 @@ Canon == Field \in {"fiatp", "fiatn"}                 \* operands and results cr
 In(X) == IF Canon THEN MT!From(X) ELSE X
 Out(X) == IF Canon THEN MT!From(X) ELSE X
 
-BinRes(op, X, Y) == CASE op = "mul" -> MT!Mul(X, Y) [] op = "add" -> MT!Add(X, Y) [] op = "sub" -> MT!Sub(X, Y)
+Plain == Field \in {"natn", "natn9"}                  \* internal/bigmod: ordinary residues, the product is the ordinary modular product
+BinRes(op, X, Y) == CASE op = "mul" -> (IF Plain THEN BN!MulMod(X, Y, Modulus) ELSE MT!Mul(X, Y)) [] op = "add" -> MT!Add(X, Y) [] op = "sub" -> MT!Sub(X, Y)
 UnRes(op, X) == CASE op = "sqr1" -> MT!SqrN(X, 1) [] op = "sqr2" -> MT!SqrN(X, 2) [] op = "sqr5" -> MT!SqrN(X, 5)
                   [] op = "frommont" -> MT!From(X) [] op = "neg" -> MT!Neg(X) [] op = "dbl" -> MT!Dbl(X) [] op = "tpl" -> MT!Tpl(X)
                   [] op = "inv" -> MT!Inv(X)
@@ -104,7 +108,7 @@ Un2Res(op, p) == CASE op = "mulu1" -> MT!M2MulU1(p) [] op = "square" -> MT!M2Mul
 
 Init == /\ phase = "row" /\ hist = <<>>
         /\ IF Field = "gfp2" THEN a \in Pairs ELSE a \in (RowSet \cup (IF RawOps = {} THEN {} ELSE RawSet))
-Emit(ev) == /\ hist' = <<ev @@ [field |-> Field]>>
+Emit(ev) == /\ hist' = <<ev @@ [field |-> Field, m |-> H32(Modulus)]>>
             /\ Em!Line(OutFile, ToJson([fam |-> "fel", steps |-> hist']))
 Row(op) ==
   /\ phase = "row" /\ phase' = op /\ UNCHANGED a
